@@ -38,7 +38,7 @@ type c07Scenario struct {
 	AcrossReconnect bool       `json:"request_pending_across_reconnect,omitempty"`
 	FailingWrite    bool       `json:"last_request_write_fails_while_its_answer_arrives,omitempty"`
 	UnsolicitedWait bool       `json:"handler_of_an_unsolicited_result_waits_for_its_own_request,omitempty"` // client only: routes run on their own goroutines, so a handler may wait for an answer
-	HandlerIQ       int        `json:"handler_sends_iq"` // number of server requests whose handler issues a SendIQ of its own
+	HandlerIQ       int        `json:"handler_sends_iq"`                                                     // number of server requests whose handler issues a SendIQ of its own
 }
 
 type c07Resp struct {
